@@ -4,7 +4,7 @@ NOTES = ('Model-based verification with explicit TLA+ specifications (specs/), c
          'specifications (Binding B). See DESIGN.md.')
 ENGINES = [
     {'name': 'instance-edges', 'path': 'specs/Instance.tla + specs/MC*.tla + harness/src/bin/replay.rs',
-     'serves_properties': ['C05', 'C06', 'C08'],
+     'serves_properties': ['C05', 'C06', 'C07', 'C08', 'C09', 'C10', 'C11', 'C14'],
      'kind_free_text': 'TLC enumerates every edge of the bounded state graph of the instance/port specification; each edge is replayed on fresh real objects and the projection compared'},
 ]
 CLAIMED = {
@@ -36,5 +36,47 @@ CLAIMED['C06'] = {
              'finding. Every edge is replayed on a real port; list contents (hook), port state and parent are compared and the property is evaluated '
              'from the delivered history alone.'),
     'note': 'announce interval = BMCA interval; the capacity case (9 masters) only in the thorough tier by simulation',
+}
+
+CLAIMED['C07'] = {
+    'engine': 'instance-edges', 'level': 'model_checking', 'design_ref': 'DESIGN.md section 4, C07',
+    'technique': 'TLA+ action property (noise => state unchanged and nothing returned) checked by TLC + edge-by-edge conformance replay + randomised two-run lock-step comparison on the real code',
+    'text': ('Noise frames (other domain / sdoId / versionPTP, malformed, Signaling, Management, Announce from outside the acceptable master list or bearing the own '
+             'port identity, Sync / Follow_Up / Delay_Resp from a non-parent or for another requester, Sync on the general channel) are members of the alphabet; TLC checks '
+             'the action property NoiseInert in every reachable state of the slave exchange and of the role changes; every edge is replayed on real ports with the complete '
+             'projection (incl. internal snapshot and rng draws) compared; a randomised driver runs histories with and without inserted frames in lock-step.'),
+    'note': 'one-run form in TLC (induction over insertion positions gives the two-run statement); two-run form sampled on the real code',
+}
+CLAIMED['C09'] = {
+    'engine': 'instance-edges', 'level': 'model_checking', 'design_ref': 'DESIGN.md section 4, C09',
+    'technique': 'TLA+ model checking with symbolic timestamps (provenance invariants over expression trees) + conformance replay with bit-exact evaluation of the trees',
+    'text': ('The slave sub-machines of the port specification keep timestamps and corrections as named symbols; TLC explores all interleavings, duplications and '
+             'omissions of two to three Sync exchanges (one- and two-step, ids across 65535->0) and two Delay exchanges and checks SingleExchange and DelayIdsMatch on the '
+             'expression tree of every measurement. Every edge is replayed on a real port: the trees are evaluated in 128-bit integers over per-seed concrete values and '
+             'compared with the Measurement the filter received (1 unit of 2^-32 ns allowed per halving).'),
+    'note': 'recording filter (mean delay := measured delay); each transmit timestamp reported once',
+}
+CLAIMED['C10'] = {
+    'engine': 'instance-edges', 'level': 'model_checking', 'design_ref': 'DESIGN.md section 4, C10',
+    'technique': 'TLA+ action properties (FollowUpOnce, Echo, SeqPlusOne, OneEventSend) checked by TLC + conformance replay with independent frame decoding + 65540-emission wrap driver',
+    'text': ('TLC checks the identifier and echo rules on the master-side handlers in every port role; each edge is replayed on real ports, emitted frames are decoded by an '
+             'independent Clause 13 decoder and by statime\'s own parser, "timestamp + correction" is compared with the symbolic sum to 2^-16 ns, identity/domain/sdoId/size '
+             'and the single-event-send rule are observable predicates; a driver pushes 65540 emissions of each type through real ports to cross the sequence wrap.'),
+    'note': 'timestamps concretised per seed over the PTP range with sub-nanosecond fractions',
+}
+CLAIMED['C11'] = {
+    'engine': 'instance-edges', 'level': 'model_checking', 'design_ref': 'DESIGN.md section 4, C11',
+    'technique': 'TLA+ invariants GMOwn / GMParent and action property AnnounceContent checked by TLC + conformance replay decoding every emitted Announce',
+    'text': ('On boundary clocks with two ports TLC checks that the data sets equal the own attributes after a BMCA without slave port and the last Announce of the parent '
+             '(stepsRemoved + 1, flags, utc offset, time source) while a port is slave, over parent content changes, parent loss, take-overs and quality changes; the emitted '
+             'Announce is a function of the data sets. Every edge is replayed and each Announce decoded field by field by the independent decoder.'),
+    'note': 'between a receipt timeout and the next BMCA the data sets still hold the old parent (the property leaves that interval open); four content variants',
+}
+CLAIMED['C14'] = {
+    'engine': 'instance-edges', 'level': 'model_checking', 'design_ref': 'DESIGN.md section 4, C14',
+    'technique': 'TLA+ model checking of the peer delay machine with symbolic timestamps (OneResponder, SecondResponderFaults, FaultyIsInert, LeavesOnlyByCleanExchange) + conformance replay',
+    'text': ('Two requests, a two-step and a one-step responder, transmit timestamp / Pdelay_Resp / Pdelay_Resp_Follow_Up each up to twice in any order, in listening, master and '
+             'slave state; TLC checks provenance and the fault rules; every edge is replayed on a real P2P port, peer delay compared bit-exactly, port state compared.'),
+    'note': 'the faulty-port-becomes-master defect found by this check is repaired by fix: 0d9a59a',
 }
 NOT_CLAIMED = {}
